@@ -255,6 +255,13 @@ func (b Service) VerifySessionTokenMessage(mV2 *protosession.SessionTokenV2, req
 		return sessionv2.Token{}, err
 	}
 
+	// cached verdict covers signatures only (entries are also made by the object
+	// processing which authenticates tokens found in object headers): delegation
+	// chain rules are checked for each request, NNS answers are cached by the resolver
+	if err := sToken.Validate(b.r); err != nil {
+		return sessionv2.Token{}, fmt.Errorf("validate V2 session token: %w", err)
+	}
+
 	currentTime := b.chainTime.Now().Round(time.Second)
 	if sToken.Exp().Before(currentTime) {
 		return sessionv2.Token{}, apistatus.ErrSessionTokenExpired
@@ -322,10 +329,6 @@ func (b Service) decodeAndVerifySessionTokenV2Common(m *protosession.SessionToke
 	var token sessionv2.Token
 	if err := token.FromProtoMessage(m); err != nil {
 		return token, fmt.Errorf("invalid V2 session token: %w", err)
-	}
-
-	if err := token.Validate(b.r); err != nil {
-		return token, fmt.Errorf("validate V2 session token: %w", err)
 	}
 
 	body, err := iprotobuf.GetFirstBytesField(mb)
